@@ -153,8 +153,15 @@ def _expand_chunk(args):
     """Expand a chunk of frontier entries.  Returns a dict of aggregated results."""
     kind, items, want_succ = args
     system = _SYS
-    out = dict(succ=[], viol=[], transitions=0, rejected=0, cut=0, nontrivial=set(),
+    out = dict(succ=[], viol=[], vgroups={}, transitions=0, rejected=0, cut=0, nontrivial=set(),
                outcomes=set(), states=set(), samples=[], error=None, rej_kinds={})
+    def addv(ci, hist, a, vd):
+        gk = (vd['clause'], json.dumps(vd.get('match', {}), sort_keys=True))
+        g = out['vgroups'].setdefault(gk, [0, None])
+        g[0] += 1
+        r = vd.get('residual')
+        if r is not None and (g[1] is None or abs(r) > g[1]): g[1] = abs(r)
+        if g[0] <= 25: out['viol'].append((ci, hist, a, vd))
     try:
         if kind == 'init':
             for ci, config in items:
@@ -162,7 +169,7 @@ def _expand_chunk(args):
                 st = system.build(config)
                 bad = False
                 for v in system.invariants(st):
-                    out['viol'].append((ci, (), None, v.to_dict())); bad = True
+                    addv(ci, (), None, v.to_dict()); bad = True
                 k = digest((None if system.merge_across_configs else ci, system.canon(st)))
                 out['states'].add(k)
                 if not bad: out['succ'].append((ci, (), k))
@@ -193,10 +200,10 @@ def _expand_chunk(args):
                         out['outcomes'].add(system.outcome(st, a, obs))
                         continue
                 except Violation as v:
-                    out['viol'].append((ci, hist, a, v.to_dict())); bad = True
+                    addv(ci, hist, a, v.to_dict()); bad = True
                 if not bad:
                     for v in system.invariants(st):
-                        out['viol'].append((ci, hist, a, v.to_dict())); bad = True
+                        addv(ci, hist, a, v.to_dict()); bad = True
                 if bad:
                     out['cut'] += 1
                     continue
@@ -239,7 +246,8 @@ class Result:
         self.depth_bound = None
         self.exhaustive = False
         self.caps = []
-        self.violations = []     # list of dict(config, hist, action, v)
+        self.violations = []     # list of dict(config, hist, action, v)  (first 25 per group)
+        self.viol_groups = {}    # (clause, match-json) -> dict(count, max_residual, kept)
         self.samples = []
         self.configs = 0
         self.wall = 0.0
@@ -253,7 +261,7 @@ class Result:
                     distinct_nontrivial=self.nontrivial,
                     distinct_outcomes=self.outcomes, depth_completed=self.depth_completed,
                     depth_bound=self.depth_bound, exhaustive=self.exhaustive, caps_hit=self.caps,
-                    violations=len(self.violations), wall_s=round(self.wall, 2), level_sizes=self.levels,
+                    violations=sum(g['count'] for g in self.viol_groups.values()), wall_s=round(self.wall, 2), level_sizes=self.levels,
                     **self.describe)
 
 
@@ -284,7 +292,7 @@ def explore(system, tier='quick', seed=0, workers=None, log=print):
         chunks = [(kind, items[i:i + size], want_succ) for i in range(0, len(items), size)]
         if pool is None:
             return [_expand_chunk(c) for c in chunks]
-        return pool.imap_unordered(_expand_chunk, chunks)
+        return pool.imap(_expand_chunk, chunks)   # ordered: which history represents a state must not depend on scheduling
 
     def absorb(outs, frontier_next):
         for o in outs:
@@ -298,8 +306,18 @@ def explore(system, tier='quick', seed=0, workers=None, log=print):
             res.transitions += o['transitions']; res.rejected += o['rejected']; res.cut += o['cut']
             for kk, n in o['rej_kinds'].items(): res.rej_kinds[kk] = res.rej_kinds.get(kk, 0) + n
             nontrivial.update(o['nontrivial']); outcomes.update(o['outcomes'])
+            for gk, (cnt, mr) in o['vgroups'].items():
+                # per (clause, match) group: every occurrence is counted, the largest residual is tracked, and the first
+                # (= shortest, BFS order) few records are retained -- bounded memory on violation-heavy spaces
+                g = res.viol_groups.setdefault(gk, dict(count=0, max_residual=None, kept=0))
+                g['count'] += cnt
+                if mr is not None and (g['max_residual'] is None or mr > g['max_residual']): g['max_residual'] = mr
             for (ci, hist, a, v) in o['viol']:
-                res.violations.append(dict(config=configs[ci], hist=hist, action=a, v=v))
+                gk = (v['clause'], json.dumps(v.get('match', {}), sort_keys=True))
+                g = res.viol_groups[gk]
+                if g['kept'] < 25:
+                    g['kept'] += 1
+                    res.violations.append(dict(config=configs[ci], hist=hist, action=a, v=v))
             if len(res.samples) < 6: res.samples.extend(o['samples'][:1])
             if frontier_next is None:
                 seen.update(o['states'])
